@@ -55,6 +55,8 @@ Fixpoint kcnt_l (tag k : N) (l : list (N * N)) : N :=
   | (t, k') :: r => (if (t =? tag) && (k' =? k) then 1 else 0) + kcnt_l tag k r
   end.
 Definition kcnt (c : crec) (tag k : N) : N := kcnt_l tag k (c_kl c).
+Fixpoint occ (k : N) (ks : list N) : N :=
+  match ks with [] => 0 | k' :: r => (if k' =? k then 1 else 0) + occ k r end.
 Definition fb (c : crec) (f : fld) : bool := negb (cn c f =? 0).
 Definition incn (c : crec) (f : fld) : crec := setn c f (cn c f + 1).
 
@@ -280,7 +282,7 @@ Definition step_pw_deliver (s : sys) (r T : N) (ks : list N) (x : pw_res) : res 
        | PwOk _ o => (o =? 0) || sent_by s (fun e => match e with EPwSend _ s' _ _ _ true _ _ _ => s' =? T | _ => false end)
        | _ => true end) else S_onepc;
   let c := getc s T in
-  chk (negb (commit_point_pw c) || forallb (fun k => kcnt c KDlv k <? kcnt c KSent k) ks) else N_dup_prewrite;
+  chk (negb (commit_point_pw c) || forallb (fun k => kcnt c KDlv k + occ k ks <=? kcnt c KSent k) ks) else N_dup_prewrite;
   chk (match x with
        | PwOk m o => negb (commit_point_pw c && fb c FHasm && negb (m =? 0) && (o =? 0)) || existsb (fun k => mem k (c_lm c)) ks
        | _ => true end) else S_mincommit;
@@ -305,7 +307,7 @@ Definition step_pw_reply (s : sys) (e : event) (r T : N) (ks : list N) (x : pw_r
   chk (delivered s e) else N_no_deliver;
   chk (match x with
        | PwOk _ _ => true
-       | _ => negb (commit_point_pw (getc s T)) || forallb (fun k => kcnt (getc s T) KNeg k <? kcnt (getc s T) KNegD k) ks
+       | _ => negb (commit_point_pw (getc s T)) || forallb (fun k => kcnt (getc s T) KNeg k + occ k ks <=? kcnt (getc s T) KNegD k) ks
        end) else N_dup_reply;
   let c := add_kl (incn (getc s T) FPwRep) KRep ks in
   let c := match x with
